@@ -201,15 +201,18 @@ def _all_concrete(obj, budget, depth=0):
 
 
 def _native_if_concrete(orig_patch, native):
+    """Same structure as CrossHair's own copylib patches (native call from inside the registered
+    patch, which the tracer does not intercept again), plus the untraced fast path."""
     def patched(*a, **kw):
         with NoTracing():
-            ok = all(_all_concrete(x, [3000]) for x in a) and not kw
-            if ok:
+            if a and isinstance(a[0], CrossHairValue):
+                return native(*a, **kw)
+            if not kw and all(_all_concrete(x, [3000]) for x in a):
                 try:
                     return native(*a)
                 except Exception:
                     pass
-        return orig_patch(*a, **kw)
+        return native(*a, **kw)
     return patched
 
 
